@@ -91,11 +91,31 @@ def stored_names(nodes):
 
 
 def loaded_names(nodes):
+    """names read in `nodes`, free occurrences only: a name bound by an enclosing lambda (rewritten comprehension
+    variables) or comprehension target is not a local of the function"""
     out = []
+
+    def walk(n, bound):
+        if isinstance(n, ast.Lambda):
+            b = bound | {a.arg for a in n.args.args + n.args.kwonlyargs + n.args.posonlyargs}
+            walk(n.body, b)
+            return
+        if isinstance(n, (ast.ListComp, ast.SetComp, ast.GeneratorExp, ast.DictComp)):
+            b = set(bound)
+            for g in n.generators:
+                walk(g.iter, b)
+                b |= {t.id for t in ast.walk(g.target) if isinstance(t, ast.Name)}
+                for c in g.ifs:
+                    walk(c, b)
+            for part in ([n.key, n.value] if isinstance(n, ast.DictComp) else [n.elt]):
+                walk(part, b)
+            return
+        if isinstance(n, ast.Name) and isinstance(n.ctx, ast.Load) and n.id not in out and n.id not in bound:
+            out.append(n.id)
+        for ch in ast.iter_child_nodes(n):
+            walk(ch, bound)
     for n in nodes:
-        for ch in ast.walk(n):
-            if isinstance(ch, ast.Name) and isinstance(ch.ctx, ast.Load) and ch.id not in out:
-                out.append(ch.id)
+        walk(n, set())
     return out
 
 
